@@ -49,7 +49,7 @@ def make_scratch(m, repo=None):
 
 def run_mutant(m, props=None):
     """returns dict(name, status, caught={prop: [keys]}, missed=[props])"""
-    props = props or m.get("expect") or ALL_PROPS
+    props = props or (list(m.get("expect") or []) + list(m.get("quiet") or [])) or ALL_PROPS
     d = make_scratch(m)
     if d is None:
         return {"name": m["name"], "status": "skipped (edit no longer applies)", "caught": {}, "missed": []}
@@ -63,7 +63,7 @@ def run_mutant(m, props=None):
             facts = fp.stdout.strip().splitlines()[-1]
         except Exception as e:  # pragma: no cover
             return {"name": m["name"], "status": "error %s" % e, "caught": {}, "missed": []}
-        caught, missed = {}, []
+        caught, missed, false_alarms = {}, [], []
         for p in props:
             modname = p.lower()
             if not os.path.exists(os.path.join(engine.VERIF, "rules", modname + ".py")):
@@ -71,10 +71,12 @@ def run_mutant(m, props=None):
             obl, new, listed = engine.run_property(p, "quick", facts_path=facts, quiet=True, write_evidence=False)
             if new:
                 caught[p] = [o["key"] for o in new]
+                if p in (m.get("quiet") or []):
+                    false_alarms.append(p)
             elif p in (m.get("expect") or []):
                 missed.append(p)
         os.remove(facts)
-        return {"name": m["name"], "status": "ok", "caught": caught, "missed": missed}
+        return {"name": m["name"], "status": "ok" if not false_alarms else "FALSE-ALARM %s" % false_alarms, "caught": caught, "missed": missed, "false_alarms": false_alarms}
     finally:
         shutil.rmtree(d, ignore_errors=True)
 
@@ -85,7 +87,7 @@ def corpus():
 
 def run_corpus(prop):
     """thorough tier: every mutant expecting `prop` must be caught by prop's rules"""
-    ms = [m for m in corpus() if prop in (m.get("expect") or [])]
+    ms = [m for m in corpus() if prop in (m.get("expect") or []) or prop in (m.get("quiet") or [])]
     results = []
     with ThreadPoolExecutor(max_workers=8) as ex:
         for r in ex.map(lambda m: run_mutant(m, [prop]), ms):
